@@ -397,6 +397,9 @@ func oracleStream(prop string, mr *muxRun, rs *reqState, cnt *[core.NumCounters]
 				nComplete++
 			}
 		}
+		if rs.httpReq != nil && rs.httpReq.Method == "GET" && sp.Proto == "http" {
+			nComplete = len(sp.Msgs) // no body: the message is reconstructed from the path alone
+		}
 		compressedCut := sp.Proto == "http" && sp.Compress && (fault == "cut" || fault == "readerr") && rs.end < len(rs.wire)
 		if sp.Proto == "http" && sp.Compress && !compressedCut {
 			nComplete = len(sp.Msgs)
@@ -479,7 +482,7 @@ func oracleStream(prop string, mr *muxRun, rs *reqState, cnt *[core.NumCounters]
 		return fail("helper-error", "%v", l.HelperErr)
 	}
 	bodyWriter := hasOp(sp.Handler, "bodywriter")
-	if sp.Proto == "http" && (rs.method.Key == "files") {
+	if sp.Proto == "http" && rs.method.httpBodyResp {
 		// raw passthrough: concatenation of the sent payloads
 		var want []byte
 		for i := 0; i < l.Sent; i++ {
